@@ -15,7 +15,7 @@ def run(ctx):
                     "compared with ';' or '=' conflates characters congruent mod 256); R2 every CharacterString construction outside "
                     "into_owned / parse is dominated by len <= 255 (internal_new) - parse takes the length from a wire byte; R3 the "
                     "chunk size used to split text is a constant in 1..=254; R4 String::try_from(TXT) appends every string's bytes once, "
-                    "in order; R5 in TXT::attributes and TXT::long_attributes every split at '=' is bounded to two pieces "
+                    "in order, and decodes the concatenation once; R5 in TXT::attributes and TXT::long_attributes every split at '=' is bounded to two pieces "
                     "(splitn(2, ..) / split_once), every split at ';' is unbounded, and no other separator is used; R6 TXT::try_from(attribute map) decides "
                     "between `key` and `key=value` by matching on the Option itself - it never collapses None into a String first.")
     roots = []
@@ -123,22 +123,38 @@ def run(ctx):
     sf = prog.find("simple_dns::<String as TryFrom<TXT>>::try_from")
     if sf is not None:
         report.count()
-        folds = mu.calls(sf, r"Iterator>::fold$|Iterator::fold$")
-        cl = [x for x in prog.bodies.values() if x.kind == "Closure" and x.root == sf.id]
+        fam = [sf] + [x for x in prog.bodies.values() if x.kind == "Closure" and x.root == sf.id]
+        ext = []
+        rev = []
+        for x in fam:
+            ext += mu.calls(x, r"Vec<T, A> as std::iter::Extend<.*>>::extend$|Vec::<T, A>::(extend_from_slice|append|push)$|String::push_str$")
+            rev += mu.calls(x, r"Iterator::(rev|skip|take|step_by|filter|skip_while|take_while)$|<impl \[T\]>::(reverse|sort.*)$")
+        # one pass over the strings in their stored order: a fold, or one loop driven by next() of the vector's iterator
+        folds = mu.calls(sf, r"Iterator>::fold$|Iterator::fold$|Iterator::for_each$")
+        import loops as _loops
+        lps, _irr, _dom = _loops.natural_loops(sf)
+        nexts = [t for _, t in mu.calls(sf, r"as std::iter::Iterator>::next$")]
+        ordered_src = lambda tys: any(("vec::IntoIter<" in y or "slice::Iter<" in y) and "CharacterString" in y for y in tys)
         okj = False
-        if len(folds) == 1 and len(cl) == 1:
-            c = cl[0]
-            ext = mu.calls(c, r"Vec<T, A> as std::iter::Extend<&'a T>>::extend$|Vec::<T, A>::extend_from_slice$")
-            # accumulator returned is the one extended; the data comes from the element's `data`
-            if len(ext) == 1:
-                okj = True
-            # iterates val.strings in order (vec::IntoIter)
-            recv = sf.ty(folds[0][1]["callee"]["targs"][0])["s"] if folds[0][1]["callee"]["targs"] else ""
-            okj = okj and "vec::IntoIter" in recv
+        # ... and decoded as UTF-8 once, as a whole (a character may straddle two strings)
+        dec_in = [(x, bi) for x in fam for bi, t in mu.calls(x, r"String::from_utf8(_lossy|_unchecked)?$|str::converts::from_utf8$|from_utf8$")]
+        loop_blocks = set()
+        for h0, info0 in lps.items():
+            loop_blocks |= set(info0["body"])
+        whole = len(dec_in) == 1 and dec_in[0][0] is sf and dec_in[0][1] not in loop_blocks
+        if len(ext) == 1 and not rev and whole:
+            if len(folds) == 1 and not lps:
+                recv = [sf.ty(i)["s"] for i in folds[0][1]["callee"]["targs"]]
+                okj = ordered_src(recv)
+            elif not folds and len(lps) == 1 and len(nexts) == 1:
+                recv = [sf.ty(i)["s"] for i in nexts[0]["callee"]["targs"]] + [sf.ty(nexts[0]["args"][0]["pl"]["t"])["s"]]
+                h, info = list(lps.items())[0]
+                okj = ordered_src(recv) and ext[0][0] in info["body"]
         if okj:
             report.nontriv("join")
         else:
-            viol(report, "C19-R4", sf, "join", "String::try_from(TXT) is not a fold over the strings (in order) that appends each string's bytes once")
+            viol(report, "C19-R4", sf, "join", "String::try_from(TXT) is not one in-order pass over the strings that appends each string's bytes once and decodes the "
+                 "concatenation as a whole")
     # ---- R5 separators
     for q, want_semi in (("simple_dns::TXT::attributes", 0), ("simple_dns::TXT::long_attributes", 1)):
         fb = prog.find(q)
